@@ -237,3 +237,148 @@ func H_C30_backoffQueue() {
 	verifrt.Observe("len", q.Len())
 	verifrt.Reach("returned")
 }
+
+// ---- inductive step: from ANY queue state satisfying the representation invariant (up to 3
+// tracked repositories, any subset on the heap in any heap-ordered arrangement, arbitrary
+// indexed / failed flags, distinct sequence numbers), one operation re-establishes the
+// invariant, and Pop yields the reference minimum. Covers histories of any length.
+
+func c30RefLess(xIndexed, xFail bool, xSeq int64, yIndexed, yFail bool, ySeq int64) bool {
+	if xIndexed != yIndexed {
+		return !xIndexed
+	}
+	if xFail != yFail {
+		return !xFail
+	}
+	return xSeq < ySeq
+}
+
+func c30ItemLess(x, y *queueItem) bool {
+	return c30RefLess(x.indexed, x.indexState == indexStateFail, x.seq, y.indexed, y.indexState == indexStateFail, y.seq)
+}
+
+func c30CheckInvariant(q *Queue, when string) {
+	for i, it := range q.pq {
+		verifrt.Assert(it.heapIdx == i, "step: heapIdx is the item's position in the heap ("+when+")")
+		verifrt.Assert(q.items[it.repoID] == it, "step: every heap entry is a tracked item ("+when+")")
+		if i > 0 {
+			verifrt.Assert(!c30ItemLess(it, q.pq[(i-1)/2]), "step: heap order by (not indexed, not failed, FIFO) ("+when+")")
+		}
+	}
+	for id, it := range q.items {
+		verifrt.Assert(it.repoID == id, "step: items are keyed by their repository id ("+when+")")
+		verifrt.Assert(it.heapIdx < 0 || (it.heapIdx < len(q.pq) && q.pq[it.heapIdx] == it), "step: heapIdx is -1 or points at the item ("+when+")")
+	}
+}
+
+func H_C30_step() {
+	verifrt.ClockStrict()
+	q := NewQueue(0, 0, sglog.NoOp())
+	n := verifrt.Concretize(verifrt.IntRange("n", 0, verifrt.Param("items", 3, 3)))
+	states := []indexState{indexStateSuccess, indexStateFail, indexStateNoop}
+	var items []*queueItem
+	for i := 0; i < n; i++ {
+		it := q.newQueueItem(uint32(i + 1))
+		it.opts = c30Opts(uint32(i+1), 1)
+		it.indexed = verifrt.Bool("indexed")
+		it.indexState = indexStateSuccess
+		if verifrt.Bool("failed") {
+			it.indexState = indexStateFail
+		}
+		it.seq = int64(verifrt.IntRange("seq", 1, 8))
+		for _, o := range items {
+			verifrt.Assume(o.seq != it.seq)
+		}
+		q.items[it.repoID] = it
+		items = append(items, it)
+		if verifrt.Bool("onHeap") {
+			it.heapIdx = len(q.pq)
+			q.pq = append(q.pq, it)
+		}
+	}
+	q.seq = 8
+	for i := 1; i < len(q.pq); i++ {
+		verifrt.Assume(!c30ItemLess(q.pq[i], q.pq[(i-1)/2]))
+	}
+	// the reference minimum of the pre-state
+	var min *queueItem
+	for _, it := range q.pq {
+		if min == nil || c30ItemLess(it, min) {
+			min = it
+		}
+	}
+	preLen := len(q.pq)
+	op := verifrt.Concretize(verifrt.IntRange("op", 0, 4))
+	id := uint32(verifrt.Concretize(verifrt.IntRange("id", 1, n+1)))
+	var pre *queueItem
+	if int(id) <= n {
+		pre = items[id-1]
+	}
+	wasOn := pre != nil && pre.heapIdx >= 0
+	switch op {
+	case 0:
+		ver := verifrt.Concretize(verifrt.IntRange("ver2", 1, 2))
+		q.AddOrUpdate(c30Opts(id, ver))
+		it := q.items[id]
+		verifrt.Assert(it != nil && it.heapIdx >= 0, "step: AddOrUpdate leaves the repository enqueued (no backoff configured)")
+		verifrt.Assert(int(it.opts.Priority) == ver, "step: AddOrUpdate stores the latest options")
+		if pre != nil && int(pre.opts.Priority) != ver {
+			verifrt.Assert(!it.indexed, "step: new options are not yet indexed")
+		}
+		if wasOn {
+			verifrt.Assert(len(q.pq) == preLen, "step: an enqueued repository is not enqueued twice")
+		} else {
+			verifrt.Assert(len(q.pq) == preLen+1 && it.seq > 8, "step: enqueued once, behind earlier entries")
+		}
+	case 1:
+		got, ok := q.Pop()
+		verifrt.Assert(ok == (preLen > 0), "step: Pop succeeds iff something is queued")
+		if ok {
+			verifrt.Assert(got.Opts.RepoID == min.repoID, "step: Pop yields not-indexed before indexed, non-failed before failed, then FIFO")
+			verifrt.Assert(min.heapIdx < 0 && len(q.pq) == preLen-1, "step: the popped repository left the queue")
+		}
+	case 2:
+		ver := verifrt.Concretize(verifrt.IntRange("ver2", 1, 2))
+		st := states[verifrt.Concretize(verifrt.IntRange("state2", 0, 2))]
+		q.SetIndexed(c30Opts(id, ver), st)
+		it := q.items[id]
+		verifrt.Assert(it != nil && it.indexState == st, "step: SetIndexed records the outcome")
+		if st == indexStateFail {
+			verifrt.Assert(it.heapIdx < 0, "step: a failed repository leaves the queue")
+		} else {
+			verifrt.Assert((it.heapIdx >= 0) == wasOn, "step: SetIndexed(success) never adds or removes")
+			if pre != nil {
+				verifrt.Assert(it.indexed == (int(pre.opts.Priority) == ver), "step: indexed iff the indexed options are the latest ones")
+			}
+		}
+	case 3:
+		missing := q.Bump([]uint32{id})
+		verifrt.Assert((len(missing) == 1) == (pre == nil), "step: Bump reports exactly the unknown ids")
+		if pre != nil {
+			verifrt.Assert(pre.heapIdx >= 0, "step: Bump enqueues a known repository (no backoff configured)")
+			if !wasOn {
+				verifrt.Assert(pre.seq > 8, "step: bumped behind earlier entries")
+			}
+		}
+	case 4:
+		var keep []uint32
+		if verifrt.Bool("keepOne") {
+			keep = []uint32{id}
+		}
+		q.MaybeRemoveMissing(keep)
+		if n != len(keep) {
+			for _, it := range items {
+				kept := len(keep) == 1 && keep[0] == it.repoID
+				verifrt.Assert((q.items[it.repoID] == it) == kept, "step: exactly the repositories that still exist stay tracked")
+				if !kept {
+					for _, h := range q.pq {
+						verifrt.Assert(h != it, "step: a removed repository is not left on the heap")
+					}
+				}
+			}
+		}
+	}
+	c30CheckInvariant(q, "after the operation")
+	verifrt.Observe("len", len(q.pq))
+	verifrt.Reach("returned")
+}
